@@ -6,6 +6,7 @@ import (
 	"encoding/binary"
 	"fmt"
 	"math"
+	"math/big"
 	"sort"
 
 	"github.com/db47h/decimal"
@@ -60,6 +61,55 @@ func decorated(o *Opnd, kind int) *Dec {
 		z := fresh(mp, o.Mode)
 		z.Set(long.Build())
 		return z
+	case 6:
+		// reached from below by a rounding whose carry runs through a whole word of nines:
+		// src = |o| − tiny at a longer precision, rounded away from zero to 19·len(words) digits
+		if o.Form != fFinite {
+			return o.Build()
+		}
+		{
+			p := uint32(len(o.Words) * DW)
+			tiny := Val{Form: fFinite, Neg: !o.V.Neg, Coef: big1, E10: o.V.E10 - 25}
+			xp := addExact(o.V, tiny)
+			src := mkCoef(xp.Neg, xp.Coef, xp.E10, uint32(ndigits(xp.Coef)), 0)
+			if src.Exp > MaxExp || src.Exp < MinExp || o.V.E10-25 < MinExp {
+				return o.Build()
+			}
+			z := fresh(p, AwayFromZero)
+			z.Set(src.Build())
+			if !Observe(z).Val().Equal(o.V) {
+				return o.Build()
+			}
+			return z
+		}
+	case 7:
+		// built through SetBitsExp from a slice that is not normalised: leading zero word and the
+		// digits shifted right by three places
+		if o.Form != fFinite {
+			return o.Build()
+		}
+		{
+			c := new(big.Int).Set(wordsToInt(o.Words))
+			if new(big.Int).Mod(c, big.NewInt(1000)).Sign() != 0 {
+				return o.Build() // the three low digits would be lost
+			}
+			c.Quo(c, big.NewInt(1000))
+			raw := intToWords(c)
+			for len(raw) < len(o.Words) {
+				raw = append(raw, 0)
+			}
+			raw = append(raw, 0) // leading (most significant) zero word
+			ws := make([]Word, len(raw))
+			for i, w := range raw {
+				ws[i] = Word(w)
+			}
+			z := fresh(o.Prec, o.Mode)
+			z.SetBitsExp(ws, o.Exp+3+DW)
+			if o.Neg {
+				z.Neg(z)
+			}
+			return z
+		}
 	case 5:
 		// precision is an attribute: the largest one
 		a := *o
@@ -126,6 +176,14 @@ func cmpValues(tier string) []*cmpVal {
 		}
 	}
 	os = append(os, mkSpecial(fZero, false, 0, 0), mkSpecial(fZero, true, 5, 0), mkSpecial(fInf, false, 3, 0), mkSpecial(fInf, true, 0, 0))
+	// every special with precision 0 and with a non-zero precision, twice (one copy stays undecorated)
+	for _, f := range []int8{fZero, fInf} {
+		for _, n := range []bool{false, true} {
+			for _, p := range []uint32{0, 0, 9, 9} {
+				os = append(os, mkSpecial(f, n, p, 0))
+			}
+		}
+	}
 	// zeros and infinities living in variables that held a finite value before (mant/exp are stale, documented as ignored)
 	for k := 1; k < len(staleKinds); k++ {
 		for _, f := range []int8{fZero, fInf} {
@@ -134,7 +192,11 @@ func cmpValues(tier string) []*cmpVal {
 	}
 	vals := make([]*cmpVal, len(os))
 	for i, o := range os {
-		vals[i] = &cmpVal{o: o, d: decorated(o, i%6), desc: o.String()}
+		kind := i % 8
+		if o.Form != fFinite {
+			kind = i % 2 // ±0 / ±Inf: as is (keeps precision 0) or with another rounding mode; their other shapes are listed explicitly above
+		}
+		vals[i] = &cmpVal{o: o, d: decorated(o, kind), desc: o.String()}
 		if o.Form == fFinite && len(o.Words) > 1 && o.Words[0] == 0 {
 			// a mantissa with a low zero word that did not go through the library's rounding:
 			// as it arrives from a gob stream, or after clearing the word through BitsExp
@@ -195,7 +257,7 @@ func cmpLayers(tier string) []Layer {
 	layers = append(layers, Layer{
 		Name:   "O1-pairs",
 		Units:  n,
-		Bounds: fmt.Sprintf("all ordered pairs over %d values: ±D(2)×10^[-2..2], ±W(3,S7) plain / with an extra low zero word (built through SetBitsExp, through a gob payload, or by clearing the word through BitsExp) / with a differing lowest word, run-length strings, range-end exponents, ±0, ±Inf (also in variables that held 1, 1e-7, a 3-word value, 5e5 before); each value decorated (mode, larger precision, non-Exact accuracy from a real rounding, Set from a longer mantissa with trailing zero words, precision attribute near MaxPrec)", n),
+		Bounds: fmt.Sprintf("all ordered pairs over %d values: ±D(2)×10^[-2..2], ±W(3,S7) plain / with an extra low zero word (built through SetBitsExp, through a gob payload, or by clearing the word through BitsExp) / with a differing lowest word, run-length strings, range-end exponents, ±0, ±Inf (also in variables that held 1, 1e-7, a 3-word value, 5e5 before); each value decorated (mode, larger precision, non-Exact accuracy from a real rounding, Set from a longer mantissa with trailing zero words, precision attribute near MaxPrec, reached from below by a carry through a word of nines, built by SetBitsExp from an un-normalised slice with a leading zero word)", n),
 		Run: func(c *Ctx, u int) {
 			vs := get()
 			x := vs[u]
